@@ -29,7 +29,8 @@
      spread_fwd_entry(_nointerp/_interp)            documented entry formulas
      spread_adjoint_pair (numpy, numba)             dotu (A u) v = dotu u (A' v)
      spread_matvec_linear, spread_rmatvec_linear    linearity
-     wf_tabb_sound                                  boolean wf checker is sound *)
+     wf_tabb_sound                                  boolean wf checker is sound
+     spread_adjoint_pair_dot                        <A u, v> = <u, A' v> over a star ring, real weights *)
 From PV Require Export Mat.
 Local Open Scope R_scope.
 
@@ -671,3 +672,45 @@ Definition fhT (fh : nat -> nat -> list (option nat) * list R) (ix0 it ix : nat)
 Definition fhD (fh : nat -> nat -> list (option nat) * list R) (ix0 it ix : nat) : R :=
   nth ix (snd (fh ix0 it)) (r0 R).
 End Tables.
+
+(* ------------------------------------------- sesquilinear form (complex data) *)
+Section SpreadStar.
+Variable K : StarRing.
+Add Ring RrSpS : (rth K).
+Variables (nx0 nt0 nx nt : nat) (interp : bool).
+Variable T : nat -> nat -> nat -> option nat.
+Variable D : nat -> nat -> nat -> K.
+Hypothesis Dreal : forall a b c, conj K (D a b c) = D a b c.      (* dtable is a real array *)
+
+Lemma conj_sumf {A} (l : list A) (f : A -> K) : conj K (sumf K l f) = sumf K l (fun a => conj K (f a)).
+Proof. induction l; simpl; [apply conj_zero | rewrite conj_add, IHl; auto]. Qed.
+Lemma vconj_concat_tab n m (f : nat -> nat -> K) :
+  vconj K (concat (tab K n m f)) = concat (tab K n m (fun i j => conj K (f i j))).
+Proof. unfold tab, vconj. rewrite concat_map, !map_map. f_equal. apply map_ext; intros i. rewrite map_map; auto. Qed.
+Lemma flat_get_vconj m (u : list K) i j : flat_get K m (vconj K u) i j = conj K (flat_get K m u i j).
+Proof. unfold flat_get, vconj. rewrite <- (conj_zero K) at 1. apply map_nth. Qed.
+Lemma conj_coef ix0 it ix j : conj K (coef K interp T D ix0 it ix j) = coef K interp T D ix0 it ix j.
+Proof.
+  unfold coef. destruct (T ix0 it ix) as [k|]; [|apply conj_zero]. destruct interp.
+  - rewrite conj_add. f_equal.
+    + destruct (Nat.eqb j k); [|apply conj_zero].
+      replace (1 - D ix0 it ix) with (1 + - D ix0 it ix) by ring. rewrite conj_add, conj_opp, conj_one, Dreal; auto.
+    + destruct (Nat.eqb j (S k)); [apply Dreal | apply conj_zero].
+  - destruct (Nat.eqb j k); [apply conj_one | apply conj_zero].
+Qed.
+Lemma vconj_spread_matvec u :
+  vconj K (spread_matvec_numpy K nx0 nt0 nx nt interp T D u) = spread_matvec_numpy K nx0 nt0 nx nt interp T D (vconj K u).
+Proof.
+  unfold spread_matvec_numpy. rewrite !spread_numpy_fwd_spec. unfold scatter_spec. rewrite vconj_concat_tab.
+  f_equal. apply tab_ext; intros ix j _ _. rewrite conj_sumf. apply sumf_ext; intros ix0 _.
+  rewrite conj_sumf. apply sumf_ext; intros it _. rewrite conj_mul, conj_coef, flat_get_vconj; auto.
+Qed.
+(* <A u, v> = <u, A' v> with the conjugate-linear inner product: the adjoint
+   (not only the transpose) of the forward operator is the gather. *)
+Theorem spread_adjoint_pair_dot u v : wf_tab nx0 nt0 nx nt interp T ->
+  length u = (nx0 * nt0)%nat -> length v = (nx * nt)%nat ->
+  dot K (spread_matvec_numpy K nx0 nt0 nx nt interp T D u) v =
+  dot K u (spread_rmatvec_numpy K nx0 nt0 nx nt interp T D v).
+Proof. intros W Hu Hv. unfold dot. rewrite vconj_spread_matvec.
+  apply spread_adjoint_pair_numpy; auto. rewrite vconj_length; auto. Qed.
+End SpreadStar.
